@@ -77,7 +77,9 @@ def outcome_of(text, want=None, path_bytes_hex=None) -> dict:
             out = harness.Outcome(c, None, env.LOG.drain())
         except Exception as e:  # noqa
             out = harness.Outcome(None, e, env.LOG.drain())
-    logs = [[a, b, c] for a, b, c in out.logs]
+    # what the library REPORTS (level WARNING and above) belongs to the outcome; DEBUG/INFO diagnostics (cache statistics,
+    # timings ...) may legitimately depend on the process history
+    logs = [[a, b, c] for a, b, c in out.logs if b in ("WARNING", "ERROR", "CRITICAL")]
     if out.ok:
         ch = out.chart
         order = [(i.name, [d.name for d in m]) for i, m in ch.instrument_tracks.items()]
